@@ -19,6 +19,7 @@ EXPLANATION = (
     "Quantity._dimensionality, Group/System members incl. propagation, ContextChain._graph, adders vs parse cache, "
     "lru_caches vs the process-wide format table), FILL (dimensional_equivalents) and who-may-write for process-wide "
     "tables. Decides these structural clauses for all paths; does not compare any answer with a fresh registry.")
+EXPLANATION += ' Also decided (rules added after the second round of seeded changes): lazily registered prefixed units stay out of the defined-spelling index and prefixes apply to defined spellings only; every storing path of the adder indexes the spelling.'
 
 
 def run(ck, ix, tier):
